@@ -145,8 +145,8 @@ impl GenerationPass for FunctionMarkupPass {
         }
 
         // Phase 3: every other return becomes a jump to the exit - unless it is
-        // the exit of some function, or its functions do not agree on where it
-        // should lead (it then stays a return of its own).
+        // the exit of some function, or one of its functions does not reach the
+        // exit it would lead to (it then stays a return of its own).
         let exit_of_a_function = |node: &Rc<CfgNode>| {
             marked
                 .iter()
@@ -158,11 +158,14 @@ impl GenerationPass for FunctionMarkupPass {
                 if Rc::ptr_eq(ret, &exit) || !ret.is_return() || exit_of_a_function(ret) {
                     continue;
                 }
-                let owners_agree = ret
+                // Every function that owns the return must reach the exit too:
+                // then the new edge takes none of them anywhere new (a function
+                // that encloses this one keeps reaching what it reached)
+                let harmless = ret
                     .functions()
                     .iter()
-                    .all(|owner| Rc::ptr_eq(&owner.exit(), &exit));
-                if owners_agree {
+                    .all(|owner| owner.nodes().iter().any(|node| Rc::ptr_eq(node, &exit)));
+                if harmless {
                     Self::redirect_return(ret, &exit);
                 }
             }
